@@ -73,12 +73,17 @@ def run(ck):
     ck.rule("C04.R2", "no second acquisition of the registry lock while it is held", floor=3)
     ck.rule("C04.R3", "lock-free list push: link, CAS, retry with observed head, orderings", floor=5)
     ck.rule("C04.R4", "MacroCallsite registration state machine", floor=4)
+    ck.rule("C04.R6", "collector wrappers pass register_callsite / on_register_dispatch / max_level_hint on to the wrapped collector (as C09.R1/R2)", floor=12)
     ck.rule("C04.R5", "every turnover re-evaluates interests and the max level (see C01.R5–R7)", floor=2)
     r1(ck, F)
     r2(ck, F)
     r3(ck, F)
     r4(ck, F)
     r5(ck, F)
+    # a collector reached through Box/Arc/Layered must itself be offered every callsite (C09.R1/R2, instantiated)
+    from rules import C09
+    C09.wrapper_rules(ck, F, rids={"R0": "C04.R6", "R1": "C04.R6", "R2": "C04.R6", "R3": "C04.R6"}, traits=["tracing_core::collect::Collect"],
+                      only={"register_callsite", "on_register_dispatch", "max_level_hint"})
 
 
 def r1(ck, F, rid="C04.R1"):
